@@ -9,30 +9,32 @@ Lemma rules_ok_at : forall a rule_at done instr f t,
   rules_ok a rule_at instr (done ++ f :: t) = true ->
   match ms_tech f with
   | TkCfi => rule_at (prev_instr a instr done) = Some (a_pw a * (ms_len f + 1))
-  | TkScan => rule_at (prev_instr a instr done) = None
+  | _ => rule_at (prev_instr a instr done) = None
   end.
 Proof.
   intros a rule_at. induction done as [|x d IH]; intros instr f t H; cbn [app rules_ok prev_instr] in *.
   - apply andb_prop in H. destruct H as [H _]. destruct (ms_tech f).
     + unfold opt_eqb in H. destruct (rule_at instr); [apply Z.eqb_eq in H; subst; reflexivity|discriminate].
     + destruct (rule_at instr); [discriminate|reflexivity].
+    + destruct (rule_at instr); [discriminate|reflexivity].
   - apply andb_prop in H. destruct H as [_ H]. exact (IH _ _ _ H).
 Qed.
 
-Lemma rules_agree : forall a iv module_at base ip0 fs rule_at,
+Lemma rules_agree : forall a iv module_at base ip0 fp0 fs rule_at,
   arch_ok a ->
-  mix_wf_layout a iv module_at base ip0 fs = true ->
+  mix_wf_layout a iv module_at base ip0 fp0 fs = true ->
   rules_ok a rule_at ip0 fs = true ->
   forall done f t callee gc fwd, fs = done ++ f :: t -> reached a base ip0 callee done ->
     cfi_rules a (mk_mem a base (mix_words fs)) rule_at callee gc fwd = mix_cfi_correct a base fs callee gc fwd.
 Proof.
-  intros a iv module_at base ip0 fs rule_at Ha Hwf Hrules done f t callee gc fwd Hall [Hsp [Hfp [Hlr [Hv [Hvc Hi]]]]].
+  intros a iv module_at base ip0 fp0 fs rule_at Ha Hwf Hrules done f t callee gc fwd Hall [Hsp [Hlr [Hv [Hvc Hi]]]].
   assert (Hpwc : (a_bits a = 32 /\ a_pw a = 4) \/ (a_bits a = 64 /\ a_pw a = 8)) by (destruct Ha as [H _]; exact H).
   pose proof (pw_pos a Hpwc) as Hp. pose proof (m_W_pos a Ha) as HW. pose proof (m_W_64 a Ha) as HW64.
   unfold mix_wf_layout in Hwf.
+  apply andb_prop in Hwf. destruct Hwf as [Hwf _]. apply andb_prop in Hwf. destruct Hwf as [Hwf _].
   apply andb_prop in Hwf. destruct Hwf as [Hwf H4]. apply andb_prop in Hwf. destruct Hwf as [Hwf H3].
   apply andb_prop in Hwf. destruct Hwf as [Hfr _]. apply Z.ltb_lt in H3. apply Z.ltb_lt in H4.
-  rewrite Hall in Hfr. destruct (frames_ok_app _ _ _ _ _ _ _ Hfr) as [ctx' [instr' Hfr']].
+  rewrite Hall in Hfr. destruct (frames_ok_app _ _ _ _ _ _ _ _ _ _ Hfr) as [ctx' [instr' [off' [st' Hfr']]]].
   apply frames_ok_cons in Hfr'. destruct Hfr' as [_ [[Hr1 Hr2] _]].
   assert (Ha' := Ha). destruct Ha as [_ [_ [_ [_ [_ [_ [_ [_ [_ [Hadj _]]]]]]]]]].
   pose proof (mix_total_nonneg done) as Hd0. pose proof (mix_total_nonneg t) as Ht0.
@@ -63,21 +65,22 @@ Proof.
     destruct (ms_ra f <? 2 ^ a_bits a) eqn:E2; [|apply Z.ltb_ge in E2; lia].
     reflexivity.
   - rewrite Hrule. reflexivity.
+  - rewrite Hrule. reflexivity.
 Qed.
 
 Theorem mix_recovers_rules :
-  forall p a os module_at max_module_addr instr_valid base fs ip0 gp0 fuel rule_at,
+  forall p a os module_at max_module_addr instr_valid base fs ip0 fp0 gp0 fuel rule_at,
     mix_arch a os ->
-    mix_wf_layout a instr_valid module_at base ip0 fs = true ->
+    mix_wf_layout a instr_valid module_at base ip0 fp0 fs = true ->
     rules_ok a rule_at ip0 fs = true ->
     (length fs < fuel)%nat ->
-    let '(r, v, mem) := mix_layout a base ip0 gp0 fs in
+    let '(r, v, mem) := mix_layout a base ip0 fp0 gp0 fs in
     walk_stack current_code p a os mem module_at max_module_addr (cfi_rules a mem rule_at) instr_valid fuel r v
-    = Ret (from_context r v TContext :: mix_chain a v gp0 base 0 fs).
+    = Ret (from_context r v TContext :: mix_chain a v gp0 (Some fp0) base 0 fs).
 Proof.
-  intros p a os ma mm iv base fs ip0 gp0 fuel rule_at Hm Hwf Hr Hf.
-  pose proof (mix_recovers_reached p a os ma mm iv base fs ip0 gp0 fuel
+  intros p a os ma mm iv base fs ip0 fp0 gp0 fuel rule_at Hm Hwf Hr Hf.
+  pose proof (mix_recovers_reached p a os ma mm iv base fs ip0 fp0 gp0 fuel
                 (cfi_rules a (mk_mem a base (mix_words fs)) rule_at) Hm) as T.
   cbn [mix_layout] in *. apply T; [|exact Hwf|exact Hf].
-  destruct Hm as [Ha _]. exact (rules_agree a iv ma base ip0 fs rule_at Ha Hwf Hr).
+  destruct Hm as [Ha _]. exact (rules_agree a iv ma base ip0 fp0 fs rule_at Ha Hwf Hr).
 Qed.
